@@ -1,0 +1,43 @@
+//go:build verif
+
+package ruleguard
+
+import (
+	"go/token"
+	"go/types"
+	"sort"
+)
+
+// VerifFindType drives engineState.FindType the way the GetType/GetInterface natives do during Run:
+// with a fresh per-call importer over the engine-wide state and the package of the file being checked.
+func VerifFindType(e *Engine, fset *token.FileSet, currentPkg *types.Package, fqn string) (types.Type, error) {
+	state := e.impl.state
+	imp := newGoImporter(state, goImporterConfig{fset: fset, buildContext: e.BuildContext})
+	return state.FindType(imp, currentPkg, fqn)
+}
+
+// VerifTypeCache returns a snapshot of the FQN->type cache (sorted keys, type strings).
+func VerifTypeCache(e *Engine) (keys []string, typeStrings []string) {
+	state := e.impl.state
+	state.typeByFQNMu.RLock()
+	for k := range state.typeByFQN {
+		keys = append(keys, k)
+	}
+	sort.Strings(keys)
+	for _, k := range keys {
+		typeStrings = append(typeStrings, state.typeByFQN[k].String())
+	}
+	state.typeByFQNMu.RUnlock()
+	return keys, typeStrings
+}
+
+// VerifPkgCache returns the sorted paths of the cached imported packages.
+func VerifPkgCache(e *Engine) []string {
+	packages := e.impl.state.cachedPackages()
+	paths := make([]string, 0, len(packages))
+	for p := range packages {
+		paths = append(paths, p)
+	}
+	sort.Strings(paths)
+	return paths
+}
